@@ -9,6 +9,7 @@ CONSTANTS N = 4
           NC = 3
           N3 = 4
           CaseCap = 4000
-INVARIANTS ProxySortedUnique FramesRejoined ChainsDisjoint C04_OneSeriesPerLset C04_ExactWhenIdentical C04_Provenance OutIncreasing
+          FrameCuts = {0, 1}
+INVARIANTS ProxySortedUnique FramesRejoined ChainsDisjoint C04_OneSeriesPerLset C04_ExactWhenIdentical C04_Provenance OutIncreasing MaxResAsked
 PROPERTY Terminates
 CHECK_DEADLOCK FALSE
